@@ -489,7 +489,7 @@ func runChildOpt(bin string, mode string, args []string, env []string, watchdog 
 		res.UserCPU = cmd.ProcessState.UserTime()
 		res.SysCPU = cmd.ProcessState.SystemTime()
 		if ru, ok := cmd.ProcessState.SysUsage().(*syscall.Rusage); ok {
-			res.MaxRSSKB = ru.Maxrss
+			res.MaxRSSKB = int64(ru.Maxrss)
 		}
 		if ws, ok := cmd.ProcessState.Sys().(syscall.WaitStatus); ok && ws.Signaled() {
 			res.Signaled = true
